@@ -608,6 +608,20 @@ Definition finish (st0 st : store) (k : kres) : store * bool * option nat :=
   | KPartial c cs => (set_cells cs st, false, Some c)
   end.
 
+(* an assignment to or through x: the sink is looked up in the store as it was before the right-hand side *)
+Definition assign_with (st s1 : store) (x : string) (k : list (nat * dv) -> value -> kres) : store * bool * option nat :=
+  match target st x with
+  | None => (st, false, None)
+  | Some sink => finish st s1 (k (cells s1) sink)
+  end.
+
+(* the right-hand side is evaluated first (an undefined variable in it fails the statement) *)
+Definition with_src (cf : cfg) (st : store) (e : expr) (f : value -> store -> store * bool * option nat) : store * bool * option nat :=
+  match eval_expr cf st e with
+  | None => (st, false, None)
+  | Some (src, s1, _) => f src s1
+  end.
+
 Definition exec (cf : cfg) (st : store) (s : stmt) : store * bool * option nat :=
   match s with
   | SDef mu x e =>
@@ -639,52 +653,12 @@ Definition exec (cf : cfg) (st : store) (s : stmt) : store * bool * option nat :
               else let '(s2, ok) := destr_old xs l s1 in (s2, ok, None)
           end
       end
-  | SAssign x e =>
-      match eval_expr cf st e with
-      | None => (st, false, None)
-      | Some (src, s1, _) =>
-          match target st x with
-          | None => (st, false, None)
-          | Some sink => finish st s1 (k_assign (cells s1) sink src)
-          end
-      end
-  | SIdx1 x i s =>
-      match target st x with
-      | None => (st, false, None)
-      | Some sink => finish st st (k_idx (cells st) sink (lin1 i) s)
-      end
-  | SIdx2 x i j s =>
-      match target st x with
-      | None => (st, false, None)
-      | Some sink => finish st st (k_idx (cells st) sink (lin2 i j) s)
-      end
-  | SOp x o e =>
-      match eval_expr cf st e with
-      | None => (st, false, None)
-      | Some (src, s1, _) =>
-          match target st x with
-          | None => (st, false, None)
-          | Some sink => finish st s1 (k_op (cells s1) o sink src)
-          end
-      end
-  | SField x f e =>
-      match eval_expr cf st e with
-      | None => (st, false, None)
-      | Some (src, s1, _) =>
-          match target st x with
-          | None => (st, false, None)
-          | Some sink => finish st s1 (k_field cf (cells s1) sink f src)
-          end
-      end
-  | STix x k e =>
-      match eval_expr cf st e with
-      | None => (st, false, None)
-      | Some (src, s1, _) =>
-          match target st x with
-          | None => (st, false, None)
-          | Some sink => finish st s1 (k_tix (cells s1) sink k src)
-          end
-      end
+  | SAssign x e => with_src cf st e (fun src s1 => assign_with st s1 x (fun cs sink => k_assign cs sink src))
+  | SIdx1 x i s => assign_with st st x (fun cs sink => k_idx cs sink (lin1 i) s)
+  | SIdx2 x i j s => assign_with st st x (fun cs sink => k_idx cs sink (lin2 i j) s)
+  | SOp x o e => with_src cf st e (fun src s1 => assign_with st s1 x (fun cs sink => k_op cs o sink src))
+  | SField x f e => with_src cf st e (fun src s1 => assign_with st s1 x (fun cs sink => k_field cf cs sink f src))
+  | STix x k e => with_src cf st e (fun src s1 => assign_with st s1 x (fun cs sink => k_tix cs sink k src))
   end.
 
 (* every refused statement returns the store it was given (allocations of the right-hand side are dropped:
@@ -697,6 +671,15 @@ Fixpoint impl_trace (cf : cfg) (st : store) (h : list stmt) : list tstep :=
   match h with
   | [] => []
   | s :: r => let '(s1, ok) := exec_st cf st s in (s, ok, snap_tab s1) :: impl_trace cf s1 r
+  end.
+
+(* did the statement fail AFTER writing (the over-long table column)? *)
+Definition is_partial (r : store * bool * option nat) : bool :=
+  match r with (_, false, Some _) => true | _ => false end.
+Fixpoint no_partial (cf : cfg) (st : store) (h : list stmt) : bool :=
+  match h with
+  | [] => true
+  | s :: r => andb (negb (is_partial (exec cf st s))) (no_partial cf (fst (exec_st cf st s)) r)
   end.
 
 (* ------------------------------------------------------------------ *)
@@ -937,6 +920,10 @@ Fixpoint first_bad (n : Z) (T : tab) (tr : list tstep) : Z :=
   | [] => (-1)%Z
   | (s, ok, T') :: r => if step_okb T s ok T' then first_bad (n + 1) T' r else n
   end.
+
+(* the model's own prediction in the shape of an observation (alias classes left out) *)
+Definition model_obs (cf : cfg) (h : list stmt) : list ostep :=
+  map (fun t => match t with (_, ok, T) => {| o_ok := ok; o_tab := T; o_cls := [] |} end) (impl_trace cf store0 h).
 
 Definition find_cfg (h : list stmt) (os : list ostep) : option cfg :=
   List.find (fun cf => syncb cf store0 h os) all_cfgs.
